@@ -52,6 +52,7 @@ func TestMain(m *testing.M) {
 			"with preallocation the reopened size is only required to be >= the logical size (property text) and the harness then calls SetOffset(size), as every immudb client does after open",
 			"compressed appendables: reads and rewinds only at entry offsets; retryable-sync without auto-sync (ErrBufferFull in the middle of an entry) and preallocation are not combined with compression",
 			"ErrBufferFull (retryable-sync without auto-sync) is legal only if more bytes than the buffer holds were appended since the last Sync; the harness then calls Sync and appends the rest",
+			"concurrent readers only read bytes that existed when the step started (no concurrent read-ahead past the end) and run only during appends, never during rewinds/discards",
 			"NOT IMPLEMENTED: injected write/fsync errors inside singleapp (the os.File is not reachable without a source hook; hook_needed is null), remoteapp-backed chunks, ReplaceCachedChunk",
 			"negative offsets, nil/empty buffers and other argument errors are not part of the property and only spot-checked where the unit tests document them",
 		},
